@@ -190,3 +190,23 @@ func LibXMSSVerify(msg, sig, pk []byte) (accepted bool, out Outcome) {
 type Outcome = ev.Outcome
 
 func evTry(f func()) ev.Outcome { return ev.Try(f) }
+
+// Guard returns a copy of b that sits in a larger allocation: len(copy) == len(b) but the backing array
+// continues with 64 sentinel bytes (spare capacity the callee can reach with append or re-slicing). intact()
+// reports whether both the visible bytes and the spare capacity are still what they were.
+func Guard(b []byte) (g []byte, intact func() bool) {
+	buf := make([]byte, len(b)+64)
+	copy(buf, b)
+	for i := len(b); i < len(buf); i++ {
+		buf[i] = 0xA5
+	}
+	orig := append([]byte{}, buf...)
+	return buf[:len(b)], func() bool {
+		for i := range buf {
+			if buf[i] != orig[i] {
+				return false
+			}
+		}
+		return true
+	}
+}
